@@ -701,6 +701,21 @@ theorem isVal_walkSel {r : Resources} (hb : Aligned r) (sels : List Sel) : IsVal
   rw [bindF_liftE]
   exact isVal_liftE (safe_root hb) (fun d hd => isVal_walkR hb sels _ (root_ok hb hd))
 
+/-- the comparison `de.name() == Ok(q)` in terms of the specification alone: the Name field stores a
+name (layout relation `NameAt`) that matches `q` under the documented rule `nameMatch` -/
+theorem entryMatches_iff {r : Resources} (hb : Aligned r) (q : Name) (e : DirEntry) :
+    entryMatches r q e ↔ ∃ nm : RName, NameAt r e.name nm ∧ nameMatch nm q = true := by
+  constructor
+  · rintro ⟨n, h1, h2⟩
+    obtain ⟨h3, h4⟩ := getName_ok hb h1
+    refine ⟨_, h3, ?_⟩
+    rw [← eq_eq_nameMatch _ q (nameAt_inRange h3), ← h4]
+    exact h2
+  · rintro ⟨nm, h1, h2⟩
+    refine ⟨nm.toName, getName_of_nameAt hb h1, ?_⟩
+    rw [eq_eq_nameMatch nm q (nameAt_inRange h1)]
+    exact h2
+
 /-! ### a lookup result, explained locally -/
 
 /-- The answer `res` of the lookup "`root()?`, then the selectors `sels` level by level, then `fin`" is
